@@ -118,11 +118,18 @@ SITES = [
 # ignore patterns: none / the vendor directory (absolute prefix) / everything / nothing / a RELATIVE fragment of the vendor path (re.match
 # anchors at the start: it ignores nothing) / a fragment that matches anywhere only with a leading .* / exactly the program's own file
 IGNORES = [None, "vendor", ".*", "nomatch\\^", "vendor_pkg", "lib\\.py", ".*vendor_pkg", "progfile"]
+# what the rendered exception is chained to (__cause__ / __context__), set on the exception object AFTER the generated program has
+# raised it (so that its own traceback is the program's); every link but the exception itself was really raised (has a traceback).
+# Python allows every one of these shapes and its own traceback printer copes with them; "any cause chain" of the property text
+CHAINS = ["none", "plain-cause", "plain-context", "self-cause", "self-context", "two-cycle-cause", "two-cycle-context",
+          "three-cycle-mixed", "from-none-with-context", "cause-3000-links", "context-3000-links", "markup-cause", "broken-str-cause",
+          "cause-with-solution", "cycle-behind-a-link"]
+LONG_CHAIN = 3000
 
 
 def _case(**kw):
     c = {"kind": 0, "head": [], "body": [], "site": 0, "tail": [], "ind": "    ", "origin": "file", "vendor": 0, "rec": "none", "depth": 1,
-         "msg": 0, "exc": 0, "verb": 0, "utf8": 1, "fmt": "plain", "simple": 0, "ignore": 0, "paths": 0, "pad": 0, "top": 0}
+         "msg": 0, "exc": 0, "verb": 0, "utf8": 1, "fmt": "plain", "simple": 0, "ignore": 0, "paths": 0, "pad": 0, "top": 0, "chain": 0}
     c.update(kw)
     return c
 
@@ -178,6 +185,13 @@ def gen(rng, tier, info):
     # files of more than 1000 lines: four-digit line numbers (and 999 -> 1000 inside one snippet)
     for pad, v, fmt in ((1200, 0, "plain"), (1200, 3, "ansi"), (990, 0, "plain"), (994, 3, "plain"), (1200, 1, "plain")):
         cases.append(_case(pad=pad, verb=v, fmt=fmt, head=[5], rec="self", depth=2))
+    # cause / context chains of every shape (cycles, thousands of links, causes with markup or without a message) x verbosity
+    for ch in range(1, len(CHAINS)):
+        for v in range(4):
+            cases.append(_case(chain=ch, verb=v, msg=rng.randrange(len(MSGS)), fmt="ansi" if (ch + v) % 4 == 0 else "plain"))
+        cases.append(_case(chain=ch, simple=1, verb=rng.randrange(4)))
+        cases.append(_case(chain=ch, verb=1, site=9))        # raised inside an except block: Python sets a context of its own
+        cases.append(_case(chain=ch, verb=3, site=10, exc=EXCS.index("Sol1")))   # raised with `from`: an explicit cause of its own
     # --- kind 0, random part
     n_rand = 350 if quick else 6000
     if tier == "search":
@@ -192,7 +206,8 @@ def gen(rng, tier, info):
             vendor=rng.randrange(2), rec=rng.choice(["none", "none", "self", "mutual"]), depth=rng.randint(1, 60),
             msg=rng.randrange(len(MSGS)), exc=rng.randrange(len(EXCS)), verb=rng.randrange(4), utf8=rng.randrange(2),
             fmt=rng.choice(["plain", "plain", "ansi"]), simple=int(rng.random() < 0.1), ignore=rng.randrange(len(IGNORES)), paths=rng.randrange(3),
-            pad=rng.choice([0] * 30 + [996, 1100]), top=(rng.randint(1, 4) if origin in ("module", "module-exec") and rng.random() < 0.3 else 0)))
+            pad=rng.choice([0] * 30 + [996, 1100]), top=(rng.randint(1, 4) if origin in ("module", "module-exec") and rng.random() < 0.3 else 0),
+            chain=(rng.randrange(1, len(CHAINS)) if rng.random() < 0.25 else 0)))
     n0 = len(cases)
     # --- kind 1: the highlighter alone on real files
     files = _corpus_files(quick)
@@ -220,7 +235,7 @@ def gen(rng, tier, info):
         cases.append({"kind": 2, "seq": [rng.randrange(rng.choice([2, 3, 5])) for _ in range(rng.randrange(5, 40))]})
     info["exhaustive"] = False
     info["distribution"] = {"renders": n0, "highlighter_files": len(files), "highlighter_cases": n1, "compact_sequences": len(cases) - n0 - n1,
-                            "sites": len(SITES), "pool_statements": len(POOL), "messages": len(MSGS), "exception_types": len(EXCS),
+                            "cause_chain_shapes": len(CHAINS), "sites": len(SITES), "pool_statements": len(POOL), "messages": len(MSGS), "exception_types": len(EXCS),
                             "source-less file names": len(FNAMES)}
     return cases
 
@@ -450,6 +465,77 @@ def run_program(c):
     return {"dir": d, "exc": e, "src": src, "path": path, "site_line": site_line, "vendor_dir": vendor_dir}
 
 
+def _raised(e):
+    """e with a traceback of its own (raised and caught here)"""
+    try:
+        raise e
+    except BaseException as x:  # noqa
+        return x
+
+
+def link_chain(e, kind):
+    """chains the exception e (already raised by the generated program: its traceback is not touched) to causes / contexts"""
+    name = CHAINS[kind]
+    if name == "none":
+        return
+    mk = lambda m: _raised(ValueError(m))
+    cut = lambda x: (setattr(x, "__cause__", None), setattr(x, "__context__", None), setattr(x, "__suppress_context__", False))
+    if name == "plain-cause":
+        e.__cause__ = mk("the cause")
+    elif name == "plain-context":
+        cut(e)
+        e.__context__ = mk("the context")
+    elif name == "self-cause":                    # raise e from e
+        e.__cause__ = e
+    elif name == "self-context":
+        cut(e)
+        e.__context__ = e
+    elif name == "two-cycle-cause":               # raise first from second, where second had been raised from first
+        b = mk("second")
+        b.__cause__ = e
+        e.__cause__ = b
+    elif name == "two-cycle-context":
+        cut(e)
+        b = mk("second")
+        b.__context__ = e
+        e.__context__ = b
+    elif name == "three-cycle-mixed":
+        cut(e)
+        b, d = mk("second"), mk("third")
+        e.__context__ = b
+        b.__cause__ = d
+        d.__context__ = e
+    elif name == "from-none-with-context":        # raise e from None inside an except block
+        e.__context__ = _raised(KeyError("k"))
+        e.__cause__ = None
+        e.__suppress_context__ = True
+    elif name in ("cause-3000-links", "context-3000-links"):
+        last = None
+        for n in range(LONG_CHAIN):               # a retry loop: raise Error(n) from last
+            x = mk("attempt %d" % n)
+            if name.startswith("cause"):
+                x.__cause__ = last
+            else:
+                x.__context__ = last
+            last = x
+        if name.startswith("cause"):
+            e.__cause__ = last
+        else:
+            cut(e)
+            e.__context__ = last
+    elif name == "markup-cause":
+        e.__cause__ = _raised(type("Boom</error>", (Exception,), {})("</b> <error>open \\"))
+    elif name == "broken-str-cause":
+        e.__cause__ = _raised(make_exc(EXCS.index("StrRaises"), "x"))
+    elif name == "cause-with-solution":
+        e.__cause__ = _raised(make_exc(EXCS.index("Sol2"), "y"))
+    elif name == "cycle-behind-a-link":           # e -> a -> b -> a
+        a, b = mk("a"), mk("b")
+        a.__cause__ = b
+        b.__cause__ = a
+        e.__cause__ = a
+
+
 def _tokens(text):
     """the token stream the highlighter sees for this text: list of model tokens, or 'TokenError' / 'Other'"""
     import tokenize
@@ -530,6 +616,7 @@ def run_impl(c):
     e = r["exc"]
     if not isinstance(e, BaseException):
         raise RuntimeError("generated program did not raise: %r" % (e,))
+    link_chain(e, c.get("chain", 0))
     # working / home directory
     if c["paths"] == 1:
         os.chdir(r["dir"])
@@ -932,7 +1019,8 @@ def nontrivial_key(c, o):
         return ["hl", c["file"]]
     if c["kind"] == 2:
         return ["compact", c["seq"]] if len(set(c["seq"])) < len(c["seq"]) else None
-    return [c["site"], c["origin"], c["rec"], min(c["depth"], 3), c["verb"], c["msg"], c["exc"], c["simple"], c["fmt"], c["vendor"], c["ignore"]]
+    return [c["site"], c["origin"], c["rec"], min(c["depth"], 3), c["verb"], c["msg"], c["exc"], c["simple"], c["fmt"], c["vendor"], c["ignore"],
+            c.get("chain", 0)]
 
 
 def describe(c):
@@ -942,9 +1030,9 @@ def describe(c):
         return "FrameCollection.compact on frames %r" % (c["seq"],)
     src, site = build_source(c)
     return ("%s(%r) raised at line %d of a generated program (origin %s, vendor call %d, recursion %s depth %d); rendered %s at verbosity %d, "
-            "utf8=%d, %s formatter, ignore pattern %r, paths %d.\n--- source ---\n%s" % (
+            "utf8=%d, %s formatter, ignore pattern %r, paths %d, chained to: %s.\n--- source ---\n%s" % (
                 EXCS[c["exc"]], MSGS[c["msg"]], site, c["origin"], c["vendor"], c["rec"], c["depth"], "simple" if c["simple"] else "full",
-                c["verb"], c["utf8"], c["fmt"], IGNORES[c["ignore"]], c["paths"], src))
+                c["verb"], c["utf8"], c["fmt"], IGNORES[c["ignore"]], c["paths"], CHAINS[c.get("chain", 0)], src))
 
 
 def shrink(c):
@@ -959,9 +1047,9 @@ def shrink(c):
             d = dict(c)
             d[k] = c[k][:i] + c[k][i + 1:]
             yield d
-    for k, v in (("vendor", 0), ("rec", "none"), ("depth", 1), ("ignore", 0), ("paths", 0), ("exc", 0), ("msg", 0), ("site", 0), ("ind", "    "),
+    for k, v in (("chain", 0), ("vendor", 0), ("rec", "none"), ("depth", 1), ("ignore", 0), ("paths", 0), ("exc", 0), ("msg", 0), ("site", 0), ("ind", "    "),
                  ("utf8", 1), ("origin", "file")):
-        if c[k] != v:
+        if c.get(k, v) != v:
             d = dict(c)
             d[k] = v
             yield d
